@@ -79,6 +79,7 @@ var (
 	wSymMeta             bool
 	wExtras              bool
 	wCrashPoint          func()
+	wTwoSets             bool
 )
 
 func wReset(nPkg, nDeps, nReg int) {
@@ -100,6 +101,9 @@ func wReset(nPkg, nDeps, nReg int) {
 	wEvents = nil
 	wDiagsSeen = nil
 	wExtras = false
+	wWarnOn = false
+	wWarns = map[wFinderKey]bool{}
+	wTwoSets = false
 }
 
 // wResetBuild: a second build of the same world (C13): counters and the target directory start
@@ -113,7 +117,18 @@ func wResetBuild(target string) {
 	wDiagsSeen = nil
 }
 
-var wSets = []versions.Set{versions.All, versions.Released}
+var wSets = []versions.Set{versions.All, versions.Released, versions.Only(versions.Version{Major: 1})}
+
+// wRefSelect: the version a registry request with allowed-set index set has to resolve to, given
+// that the scripted registry offers 1.0.0 and 1.1.0 (reference, not the code under test).
+func wRefSelect(set int) versions.Version {
+	if set == 2 {
+		return versions.Version{Major: 1}
+	}
+	return versions.Version{Major: 1, Minor: 1}
+}
+
+func wVerKey(r int, v versions.Version) string { return "r" + string(rune('0'+r)) + "@" + v.String() }
 
 func wDrawNode() wNode {
 	return wNode{pkg: verif.Choose("dep.pkg", wNPkg), loc: verif.Choose("dep.loc", 2)}
@@ -146,8 +161,12 @@ func wDepsOf(k wFinderKey) []wDep {
 			}
 		case 3:
 			d.reg = verif.Choose("dep.reg", wNReg)
-			d.regSub = []string{"", "m"}[verif.Choose("dep.regsub", 2)]
-			d.set = verif.Choose("dep.set", len(wSets))
+			if wTwoSets { // only the two allowed sets that select different versions, no sub-path
+				d.set = []int{0, 2}[verif.Choose("dep.set", 2)]
+			} else {
+				d.regSub = []string{"", "m"}[verif.Choose("dep.regsub", 2)]
+				d.set = verif.Choose("dep.set", len(wSets))
+			}
 		}
 		out = append(out, d)
 	}
@@ -162,9 +181,38 @@ type wFinder struct {
 	kind int
 }
 
+type wWarning struct{ text string }
+
+func (w wWarning) Severity() DiagSeverity       { return DiagWarning }
+func (w wWarning) Description() DiagDescription { return DiagDescription{Summary: w.text} }
+func (w wWarning) Source() DiagSource           { return DiagSource{} }
+func (w wWarning) ExtraInfo() interface{}       { return nil }
+
+var wWarnOn bool
+var wWarns map[wFinderKey]bool
+
+var wSubPathSeen string
+
 func (f wFinder) FindDependencies(fsys fs.FS, subPath string, deps *Dependencies) Diagnostics {
+	wSubPathSeen = subPath
 	k := wFinderKey{f.node, f.kind}
 	wAnalysed[k]++
+	if wWarnOn {
+		w, ok := wWarns[k]
+		if !ok {
+			w = verif.Bool("warn")
+			wWarns[k] = w
+		}
+		if w {
+			return wFindDeps(f, k, deps, Diagnostics{wWarning{"careful"}})
+		}
+	}
+	return wFindDeps(f, k, deps, nil)
+}
+
+func wFindDeps(f wFinder, k wFinderKey, deps *Dependencies, out Diagnostics) Diagnostics {
+	// the finder handed over for a location is called for that location
+	verif.Assert("C08-finder-runs-at-the-location-it-was-declared-for", wSubPathSeen == wLocs[f.node.loc])
 	for _, d := range wDepsOf(k) {
 		switch d.kind {
 		case 1:
@@ -175,14 +223,14 @@ func (f wFinder) FindDependencies(fsys fs.FS, subPath string, deps *Dependencies
 				deps.AddLocalSource(l, wFinder{tgt, d.finder})
 			}
 		case 3:
-			tgt := wRegistryTarget(d.reg)
+			tgt := wRegistryTarget(d.reg, wRefSelect(d.set))
 			reg := sourceaddrs.RegistrySource{}
 			reg, _ = sourceaddrs.ParseRegistrySource(wRegPkg(d.reg).String() + wSubSuffix(d.regSub))
 			final := reg.FinalSourceAddr(tgt)
 			deps.AddRegistrySource(reg, wSets[d.set], wFinder{wNodeOf(final), d.finder})
 		}
 	}
-	return nil
+	return out
 }
 
 func wSubSuffix(s string) string {
@@ -266,15 +314,21 @@ func (wFetcher) FetchSourcePackage(ctx context.Context, sourceType string, u *ur
 		envWriteFile(targetDir+"/secret", 0600, 1000, "s")
 		envMkdir(targetDir+"/empty", 0711, 1000)
 		envSymlink(targetDir+"/lnk", "main.tf", 1000)
+		// the package re-includes a directory the default rules exclude: it stays in the bundle
+		envWriteFile(targetDir+"/.terraformignore", 0644, 1000, "!.terraform/\n")
+		envMkdir(targetDir+"/.terraform", 0755, 1000)
+		envWriteFile(targetDir+"/.terraform/environment", 0644, 1000, "default")
 	}
 	m, ok := wMeta[i]
 	if !ok {
 		if wSymMeta {
-			switch verif.Choose("meta", 3) {
+			switch verif.Choose("meta", 4) {
 			case 1:
 				m = PackageMetaWithGitMetadata("id"+string(rune('0'+i)), "msg")
 			case 2:
 				m = PackageMetaWithGitMetadata("", "msg-only")
+			case 3:
+				m = PackageMetaWithGitMetadata("", "") // present but empty
 			}
 		}
 		wMeta[i] = m
@@ -286,9 +340,9 @@ func (wFetcher) FetchSourcePackage(ctx context.Context, sourceType string, u *ur
 
 type wRegistry struct{}
 
-func wRegistryTarget(r int) sourceaddrs.RemoteSource {
-	// the address the registry names for (r, selected version) - one per registry package here
-	k := "r" + string(rune('0'+r))
+func wRegistryTarget(r int, v versions.Version) sourceaddrs.RemoteSource {
+	// the address the registry names for (r, version)
+	k := wVerKey(r, v)
 	if t, ok := wRegTarget[k]; ok {
 		return t
 	}
@@ -323,7 +377,7 @@ func (wRegistry) ModulePackageSourceAddr(ctx context.Context, pkgAddr regaddr.Mo
 	if wFaults && verif.Fault("source") {
 		return ModulePackageSourceAddrResponse{}, &wErr{"registry down"}
 	}
-	return ModulePackageSourceAddrResponse{SourceAddr: wRegistryTarget(r)}, nil
+	return ModulePackageSourceAddrResponse{SourceAddr: wRegistryTarget(r, version)}, nil
 }
 
 // ---- tracer + context ----
@@ -376,7 +430,11 @@ func wTracer() *BuildTracer {
 
 // ---- reference closure: what a fault-free build has to have visited ----
 
+// wRegClosure: the (registry package @ version) pairs a fault-free build has to have resolved.
+var regs map[string]bool
+
 func wClosure(adds []wFinderKey) (map[wFinderKey]bool, map[int]bool) {
+	regs = map[string]bool{}
 	seen := map[wFinderKey]bool{}
 	pkgs := map[int]bool{}
 	todo := append([]wFinderKey(nil), adds...)
@@ -398,7 +456,10 @@ func wClosure(adds []wFinderKey) (map[wFinderKey]bool, map[int]bool) {
 				}
 			case 3:
 				reg, _ := sourceaddrs.ParseRegistrySource(wRegPkg(d.reg).String() + wSubSuffix(d.regSub))
-				todo = append(todo, wFinderKey{wNodeOf(reg.FinalSourceAddr(wRegTarget["r"+string(rune('0'+d.reg))])), d.finder})
+				todo = append(todo, wFinderKey{wNodeOf(reg.FinalSourceAddr(wRegTarget[wVerKey(d.reg, wRefSelect(d.set))])), d.finder})
+				if regs != nil {
+					regs[wVerKey(d.reg, wRefSelect(d.set))] = true
+				}
 			}
 		}
 	}
